@@ -235,6 +235,28 @@ def run(ctx: Ctx):
                  "'Request' with another instance of itself, R bit set",
                  expected="the class the command's type_factory names for the answer header",
                  observed="name search only")
+    # ... and only when the names lead nowhere: a hierarchy that follows the naming scheme and
+    # derives from the library's classes inherits their type_factory, which names the LIBRARY's
+    # answer class
+    cons_tp = cons + "#names-first"
+    ctx.inst(cons_tp)
+    if tf_calls:
+        par_t = A.parents(ta.node)
+        guarded = False
+        for c_ in tf_calls:
+            cur = c_
+            while cur in par_t:
+                cur = par_t[cur]
+                if isinstance(cur, ast.If) and "return_type" in ast.unparse(cur.test) and (
+                        "Message" in ast.unparse(cur.test) or "__class__" in ast.unparse(cur.test)):
+                    guarded = True
+        if not guarded:
+            ctx.fail(cons_tp, ta.loc(tf_calls[0]), "the class named by type_factory replaces the result of the "
+                     "name search unconditionally: GyRequest(Gy, CreditControlRequest) with GyAnswer(Gy, "
+                     "CreditControlAnswer) is answered with a plain CreditControlAnswer - the attributes "
+                     "GyAnswer adds are silently left out of the encoded answer",
+                     expected="type_factory consulted only when the name search ended at Message / the "
+                              "request's own class", observed="unconditional")
     no_hidden_state(ctx, "C20-R5", [ta], set())
     for gname in ("Message", "DefinedMessage", "UndefinedMessage"):
         gc = base.classes.get(gname)
